@@ -176,6 +176,19 @@ theorem cuthill_numbering_total_and_bijective (N : Nat) (nc : Array Nat) (oc : A
       (∀ (i i' k : Nat), s.newnum[i]?.getD none = some k → s.newnum[i']?.getD none = some k → i = i') :=
   numbering_bijective N nc oc hadj n0 hN h0
 
+/-- `Cuthill()` as a whole, for every `.edge` file over at least two nodes whose lines join node indices (any graph: disconnected,
+    multiple lines, isolated nodes): the function returns (no unreachable state, fuel never exhausted), every node gets a number
+    below `N` and no two nodes get the same - `newnum` is a permutation, which is what `SortNodes`, the element renumbering and the
+    solution file rest on. -/
+theorem cuthill_is_permutation (N : Nat) (es : List (Nat × Nat)) (hN : 2 ≤ N) (hes : ∀ e ∈ es, e.1 < N ∧ e.2 < N) :
+    ∃ r, cuthill N es = some r ∧ r.newnum.size = N ∧
+      (∀ (i : Nat), i < N → r.newnum[i]?.getD 0 < N) ∧
+      (∀ (i j : Nat), i < N → j < N → r.newnum[i]?.getD 0 = r.newnum[j]?.getD 0 → i = j) :=
+  cuthill_perm N es hN hes
+
+/-- `SortElements` (the comb sort that stops early) loses and duplicates nothing -/
+theorem sortElements_is_permutation (els : List Cuthill.Elem) : (sortElements els).Perm els := sortElements_perm els
+
 /-- the bubble sort of an adjacency list by the degree of the neighbours only reorders it -/
 theorem cuthill_adjacency_sort_is_permutation (key : Nat → Nat) (l : List Nat) : (sortAdj key l).Perm l := sortAdj_perm key l
 
